@@ -282,6 +282,7 @@ func main() {
 		limit := fs.Int("limit", 0, "path limit")
 		verbose := fs.Bool("v", false, "print fork sites and function counts")
 		budget := fs.Int("budget", 0, "wall-clock budget in seconds")
+		doReplay := fs.Bool("replay", false, "replay every violation natively and print the outcome")
 		fs.Parse(os.Args[2:])
 		p, err := loadProgram(".", "./timer")
 		if err != nil {
@@ -312,6 +313,26 @@ func main() {
 				}
 				fmt.Fprintf(os.Stderr, "  fork %6d %s\n", c.v, c.k)
 			}
+		}
+		if *doReplay {
+			for _, v := range r.Violations {
+				if v.Extra != nil {
+					fmt.Fprintf(os.Stderr, "REPLAY %s: no model: %v\n", v.ID, v.Extra)
+					continue
+				}
+				vp, err := writeVector("_debug", j.Pkg, v)
+				if err != nil {
+					fmt.Fprintln(os.Stderr, err)
+					continue
+				}
+				ro, err := nativeReplay(vp, j.Pkg)
+				if err != nil {
+					fmt.Fprintf(os.Stderr, "REPLAY %s: error %v\n", v.ID, err)
+					continue
+				}
+				fmt.Fprintf(os.Stderr, "REPLAY %s %s: reproduced=%v failed=%v known=%v panic=%q tagerr=%q assume_ko=%v vector=%s\n", v.ID, v.Where, reproduced(v, ro), ro.Failed, ro.Known, ro.Panic, ro.TagErr, ro.AssumeKO, vp)
+			}
+			r.Violations = nil
 		}
 		b, _ := json.MarshalIndent(r, "", " ")
 		fmt.Println(string(b))
